@@ -31,15 +31,19 @@ func init() {
 		Rule: "failing programs: generated core programs with a buried ill-typed / wrong-arity / unbound / error form (every position class the generator reaches: argument, operator position, binding initialiser, body, handler expression and body, callbacks of map/foldl/select, nested call depth), and macro templates (failing form written in the template vs built by the macro without position), rendered with random layout (newlines, indentation, comments) so spans move; " +
 			"the family 'handler work before rethrow' puts handlers between the failing form of any of those programs and the host (top-level forms and function bodies wrapped in handler-bind) whose handlers do work before (rethrow) - a nested handler-bind whose body succeeds / whose own binding handles its error / whose error matches no binding and is swallowed by ignore-errors, a helper that uses handler-bind, tail loops, a nested rethrow that is caught or ignored - as the last form, under progn/let/if, through several layers, or from a handler nested up to three deep inside running handlers that failed anew; the host's error keeps location, trace, condition and (for `error`) data; " +
 			"the family 'where in an expansion the position-less node sits' (c18_expansion.go) enumerates slot (let / let* initialiser, flet / labels / macrolet body, handler expression and body, dotimes count and result, cond test and clause body, a let nested in an initialiser; plain argument, lambda body and the expansion's root as controls) x spelling of the lists between the expansion's root and the slot (parens, bracket entries, bracket list, both, made by list / cons / append / concat) x builder (defmacro / macrolet template with the node spliced in by unquote, template whose entry is computed by (list ..), expansion made entirely by list calls, host Go macro registered through AddMacros building with lisp.SExpr / lisp.QExpr / lisp.Symbol; optionally behind an outer macro) and samples failure kind (unbound generated symbol; for host macros also type, arity, `error`), one to four call sites of the macro in different contexts (earlier uses succeed or are swallowed, the last fails); two sub-classes let a position-less value reach the expansion by a route of its own (the root is a tail / slice of a quoted literal; a generated symbol made once and spliced into every expansion); " +
+			"the family 'one error, several consumers' (c18_consumers.go) wraps the forms of the same failing programs in handlers that hand the very error they are handling to further consumers before it goes on - (ignore-errors (rethrow)) directly, in a callee, after work, repeatedly; a nested handler-bind whose handler is called with it; a nested handler rethrowing it into ignore-errors; (verif:capture), a host function keeping it - with other errors raised under more or fewer frames and swallowed, handled or kept in between (none, one, up to ten), and then rethrow it to the host, through further layers, to an outer handler that keeps it and recovers, or out into an ignore-errors form; the host's error AND every error a handler kept, read again after the load returned, have the model's location and trace; " +
 			"distinct_nontrivial counts distinct (error class, innermost three frame kinds, position-in-source class) signatures",
 		Assumptions: []string{
 			"a function call is active from application (after its arguments were evaluated); special operators are active while their sub-forms run; a macro only during expansion",
 			"site classes judged: unbound symbol -> the symbol; error / argument rejection by a function or operator -> the call expression; template-written forms keep their position; forms a macro builds without position take the macro call site. Other error classes (head not a function, malformed special forms, errors under thread-first/last whose calls are built without position) must lie inside the source and inside the failing top-level form, nothing more",
 			"docs/lang.md 'Rethrowing Errors': (rethrow) re-raises the error the innermost running handler was called with, with its original trace and condition data, whatever handler-bind / ignore-errors forms began and ended while that handler ran; a changed condition is blamed on the handlers' work only when a control (same handlers, work left out) delivers the model's condition",
+			"(rethrow) hands on the error object the handler was called with; an error that a handler or a host function received keeps location and trace whatever another consumer (an ignore-errors form swallowing it, a nested handler called with it, an outer handler) does when it is done with it, also when it is read after the load returned (property: 'a handler or the embedding host receives location and trace unchanged, also after rethrow')",
 			"a position-less node of an expansion takes the call site of the macro call whose expansion is being evaluated, whatever list of the expansion it sits in (paren, bracket, lisp.QExpr, a list made by list / cons at expansion time) and however it got there: the list header that cdr / rest / slice return is a new, position-less node even when its elements are a literal's, and a position-less value spliced into several expansions takes the call site of each (the model stamps a copy)",
 			"a callee invoked by a builtin function on the program's behalf (callbacks of map, foldl, select, funcall, apply, stable-sort, ...) is called from that builtin's call expression, with and without elimination; for handlers and for all?/any? (which evaluate a call expression they build themselves, without position) only the callee's order and name are compared",
 		},
-		Cases:       func(tier string) int { return c18BaseCases(tier) + c18HWCases(tier) + c18ExpansionCases(tier) },
+		Cases: func(tier string) int {
+			return c18BaseCases(tier) + c18HWCases(tier) + c18ExpansionCases(tier) + c18CNCases(tier)
+		},
 		Run:         c18Run,
 		Init:        c18Init,
 		Driver:      c18Driver,
@@ -138,6 +142,7 @@ func c18Program(w *fw.W, idx int) ([]*sx.N, string, map[string]bool, *c18HW, *c1
 // c18Driver: the appended family must have produced judged programs in every slot,
 // spelling and builder class; otherwise the run says nothing about them.
 func c18Driver(d *fw.D) {
+	c18ConsumersDriver(d)
 	if got, want := d.Counters["expansion_programs_compared"], int64(c18ExpansionCases(d.Tier)/2); got < want {
 		d.Inconclusive(fmt.Sprintf("family expansion-position: %d programs were compared with the model, at least %d expected", got, want))
 	}
@@ -266,6 +271,11 @@ func c18MacroProgram(r *fw.RNG) []*sx.N {
 }
 
 func c18Run(w *fw.W, idx int) {
+	// the family "one error, several consumers" (c18_consumers.go) is appended last
+	if k := idx - c18BaseCases(w.Tier) - c18HWCases(w.Tier) - c18ExpansionCases(w.Tier); k >= 0 {
+		c18ConsumersRun(w, idx, k)
+		return
+	}
 	forms, label, feats, hw, ex := c18Program(w, idx)
 	src := sx.Render(forms, c01Layout(w.RNG(idx, "layout")))
 	// finding keys of the family "handler work before rethrow" name the class of
@@ -376,109 +386,8 @@ func c18Run(w *fw.W, idx int) {
 		w.Count("rethrown_errors_compared", 1)
 	}
 
-	// ---- 1. location ----------------------------------------------------------------
-	loc, has := voff.Source()
-	underThread := false
-	for _, f := range merr.Stack {
-		if f.Name == "thread-first" || f.Name == "thread-last" {
-			underThread = true
-		}
-	}
-	judged := (merr.Class == "unbound" || merr.Class == "user" || merr.Class == "type" || merr.Class == "arity" || merr.Class == "range" || merr.Class == "host-fail") && !underThread && merr.Site != nil
-	if !has {
-		if judged {
-			w.Violation(key("error-without-location:"+merr.Class), "an error raised while loading parsed source carries no location", detail())
-			return
-		}
-	} else {
-		if loc.Pos < 0 || loc.Pos > len(src) || (loc.EndPos > len(src)) {
-			w.Violation(key("error-location-outside-source"), fmt.Sprintf("location %d..%d is outside the %d-byte source", loc.Pos, loc.EndPos, len(src)), detail())
-			return
-		}
-		if judged {
-			s := merr.Site
-			if loc.Pos != s.Pos || loc.Line != s.Line || loc.Col != s.Col {
-				w.Violation(key("error-location-wrong:"+merr.Class),
-					fmt.Sprintf("error located at %d:%d (offset %d) but the failing form %s is at %d:%d (offset %d)", loc.Line, loc.Col, loc.Pos, trunc(s.String(), 60), s.Line, s.Col, s.Pos), detail())
-				return
-			}
-			if s.K == sx.List && loc.EndPos != 0 && loc.EndPos != s.End {
-				w.Violation(key("error-location-end-wrong:"+merr.Class), fmt.Sprintf("error span ends at offset %d, the failing form ends at %d", loc.EndPos, s.End), detail())
-				return
-			}
-		}
-	}
-	// with elimination on the judged classes must be located at the same form
-	if l2, h2 := von.Source(); judged && has && (!h2 || l2.Pos != loc.Pos || l2.Line != loc.Line || l2.Col != loc.Col) {
-		w.Violation(key("error-location-wrong-with-elimination:"+merr.Class),
-			fmt.Sprintf("with tail-call elimination the error is located at %d:%d, without at %d:%d (the failing form)", l2.Line, l2.Col, loc.Line, loc.Col), detail())
-		return
-	}
-
-	// ---- 2. active-call chain, elimination off: equal to the model's -------------------
-	real := c18RealChain(voff)
-	model := merr.Stack
-	if len(real) != len(model) {
-		w.Violation(key("stack-trace-length:"+merr.Class), fmt.Sprintf("stack trace has %d frames, %d calls were active", len(real), len(model)), detail())
-		return
-	}
-	for i := range real {
-		mf := model[len(model)-1-i]
-		rf := real[i]
-		wantName := mf.Name
-		if rf.name != wantName && !(wantName == "" && rf.name == "") && !(mf.Fn != nil && mf.Fn.Bound[rf.name]) {
-			w.Violation(key("stack-trace-frame-name:"+merr.Class), fmt.Sprintf("frame %d (innermost first) is %q, the active call there is %q", i, rf.name, wantName), detail())
-			return
-		}
-		behalf := mf.Site == nil
-		if !behalf && !underThread {
-			want := fmt.Sprintf("%d:%d", mf.Site.Line, mf.Site.Col)
-			if rf.loc != want {
-				w.Violation(key("stack-trace-call-site:"+merr.Class), fmt.Sprintf("frame %d (%s) has call site %s, the call is written at %s", i, rf.name, rf.loc, want), detail())
-				return
-			}
-		}
-		// a callee invoked by a builtin function on the program's behalf (a callback of
-		// map, foldl, funcall, ...) is called from that builtin's call expression
-		if ci := len(model) - 2 - i; behalf && !underThread && ci >= 0 {
-			if cf := model[ci]; cf.Kind == refint.FnFunction && cf.Site != nil && c18BehalfCallers[cf.Name] && !c18UnpositionedCallbacks[cf.Name] {
-				want := fmt.Sprintf("%d:%d", cf.Site.Line, cf.Site.Col)
-				if rf.loc != want {
-					w.Violation(key("stack-trace-callback-site:"+merr.Class), fmt.Sprintf("frame %d (%s, called back by %s) has call site %s, the %s expression is written at %s", i, rf.name, cf.Name, rf.loc, cf.Name, want), detail())
-					return
-				}
-				w.Count("callback_sites_compared", 1)
-			}
-		}
-	}
-	// ---- 3. elimination on: only elided frames may be missing --------------------------
-	ron := c18RealChain(von)
-	j := 0
-	for i, f := range real {
-		// a callee invoked by a builtin on the program's behalf inherits the call
-		// site of whatever frame the builtin is running in, which differs once
-		// that frame was reused by a tail call: such frames match by name
-		behalf := model[len(model)-1-i].Site == nil
-		if j < len(ron) && ron[j].name == f.name && (ron[j].loc == f.loc || behalf) {
-			if ron[j].loc != f.loc && !underThread {
-				w.Violation(key("stack-trace-callback-site-with-elimination:"+merr.Class),
-					fmt.Sprintf("with elimination on the called-back frame %s has call site %s, without %s", f.name, ron[j].loc, f.loc), detail())
-				return
-			}
-			j++
-			continue
-		}
-		if behalf && elided[c18Elided{f.name, "*"}] {
-			continue
-		}
-		if !elided[c18Elided{f.name, f.loc}] {
-			w.Violation(key("stack-trace-frame-dropped:"+merr.Class),
-				fmt.Sprintf("with elimination on the frame %s@%s is missing although no tail elision collapsed it", f.name, f.loc), detail())
-			return
-		}
-	}
-	if j != len(ron) {
-		w.Violation(key("stack-trace-extra-frames-with-elimination"), "the elimination-on trace is not a subsequence of the elimination-off trace", detail())
+	real, ron, model, ok := c18Judge(w, key, detail, src, voff, von, merr, elided)
+	if !ok {
 		return
 	}
 	kinds := ""
@@ -524,6 +433,119 @@ func c18Run(w *fw.W, idx int) {
 	if w.WantSample() && len(src) < 700 && len(real) > 2 {
 		w.Sample(map[string]any{"source": src, "error": voff.String(), "stack_innermost_first": c18ChainString(real)})
 	}
+}
+
+// c18Judge compares one error of the real runs (elimination off: voff, on: von) with
+// the model's error merr: location (section 1), the chain of active calls of the
+// elimination-off run frame by frame (section 2) and what elimination may remove
+// (section 3).  It reports the first disagreement under key(...) and returns ok=false.
+func c18Judge(w *fw.W, key func(string) string, detail func() string, src string, voff, von *lisp.LVal, merr *refint.Err, elided map[c18Elided]bool) (real, ron []c18Frame, model []refint.Frame, ok bool) {
+	// ---- 1. location ----------------------------------------------------------------
+	loc, has := voff.Source()
+	underThread := false
+	for _, f := range merr.Stack {
+		if f.Name == "thread-first" || f.Name == "thread-last" {
+			underThread = true
+		}
+	}
+	judged := (merr.Class == "unbound" || merr.Class == "user" || merr.Class == "type" || merr.Class == "arity" || merr.Class == "range" || merr.Class == "host-fail") && !underThread && merr.Site != nil
+	if !has {
+		if judged {
+			w.Violation(key("error-without-location:"+merr.Class), "an error raised while loading parsed source carries no location", detail())
+			return nil, nil, nil, false
+		}
+	} else {
+		if loc.Pos < 0 || loc.Pos > len(src) || (loc.EndPos > len(src)) {
+			w.Violation(key("error-location-outside-source"), fmt.Sprintf("location %d..%d is outside the %d-byte source", loc.Pos, loc.EndPos, len(src)), detail())
+			return nil, nil, nil, false
+		}
+		if judged {
+			s := merr.Site
+			if loc.Pos != s.Pos || loc.Line != s.Line || loc.Col != s.Col {
+				w.Violation(key("error-location-wrong:"+merr.Class),
+					fmt.Sprintf("error located at %d:%d (offset %d) but the failing form %s is at %d:%d (offset %d)", loc.Line, loc.Col, loc.Pos, trunc(s.String(), 60), s.Line, s.Col, s.Pos), detail())
+				return nil, nil, nil, false
+			}
+			if s.K == sx.List && loc.EndPos != 0 && loc.EndPos != s.End {
+				w.Violation(key("error-location-end-wrong:"+merr.Class), fmt.Sprintf("error span ends at offset %d, the failing form ends at %d", loc.EndPos, s.End), detail())
+				return nil, nil, nil, false
+			}
+		}
+	}
+	// with elimination on the judged classes must be located at the same form
+	if l2, h2 := von.Source(); judged && has && (!h2 || l2.Pos != loc.Pos || l2.Line != loc.Line || l2.Col != loc.Col) {
+		w.Violation(key("error-location-wrong-with-elimination:"+merr.Class),
+			fmt.Sprintf("with tail-call elimination the error is located at %d:%d, without at %d:%d (the failing form)", l2.Line, l2.Col, loc.Line, loc.Col), detail())
+		return nil, nil, nil, false
+	}
+
+	// ---- 2. active-call chain, elimination off: equal to the model's -------------------
+	real = c18RealChain(voff)
+	model = merr.Stack
+	if len(real) != len(model) {
+		w.Violation(key("stack-trace-length:"+merr.Class), fmt.Sprintf("stack trace has %d frames, %d calls were active", len(real), len(model)), detail())
+		return nil, nil, nil, false
+	}
+	for i := range real {
+		mf := model[len(model)-1-i]
+		rf := real[i]
+		wantName := mf.Name
+		if rf.name != wantName && !(wantName == "" && rf.name == "") && !(mf.Fn != nil && mf.Fn.Bound[rf.name]) {
+			w.Violation(key("stack-trace-frame-name:"+merr.Class), fmt.Sprintf("frame %d (innermost first) is %q, the active call there is %q", i, rf.name, wantName), detail())
+			return nil, nil, nil, false
+		}
+		behalf := mf.Site == nil
+		if !behalf && !underThread {
+			want := fmt.Sprintf("%d:%d", mf.Site.Line, mf.Site.Col)
+			if rf.loc != want {
+				w.Violation(key("stack-trace-call-site:"+merr.Class), fmt.Sprintf("frame %d (%s) has call site %s, the call is written at %s", i, rf.name, rf.loc, want), detail())
+				return nil, nil, nil, false
+			}
+		}
+		// a callee invoked by a builtin function on the program's behalf (a callback of
+		// map, foldl, funcall, ...) is called from that builtin's call expression
+		if ci := len(model) - 2 - i; behalf && !underThread && ci >= 0 {
+			if cf := model[ci]; cf.Kind == refint.FnFunction && cf.Site != nil && c18BehalfCallers[cf.Name] && !c18UnpositionedCallbacks[cf.Name] {
+				want := fmt.Sprintf("%d:%d", cf.Site.Line, cf.Site.Col)
+				if rf.loc != want {
+					w.Violation(key("stack-trace-callback-site:"+merr.Class), fmt.Sprintf("frame %d (%s, called back by %s) has call site %s, the %s expression is written at %s", i, rf.name, cf.Name, rf.loc, cf.Name, want), detail())
+					return nil, nil, nil, false
+				}
+				w.Count("callback_sites_compared", 1)
+			}
+		}
+	}
+	// ---- 3. elimination on: only elided frames may be missing --------------------------
+	ron = c18RealChain(von)
+	j := 0
+	for i, f := range real {
+		// a callee invoked by a builtin on the program's behalf inherits the call
+		// site of whatever frame the builtin is running in, which differs once
+		// that frame was reused by a tail call: such frames match by name
+		behalf := model[len(model)-1-i].Site == nil
+		if j < len(ron) && ron[j].name == f.name && (ron[j].loc == f.loc || behalf) {
+			if ron[j].loc != f.loc && !underThread {
+				w.Violation(key("stack-trace-callback-site-with-elimination:"+merr.Class),
+					fmt.Sprintf("with elimination on the called-back frame %s has call site %s, without %s", f.name, ron[j].loc, f.loc), detail())
+				return nil, nil, nil, false
+			}
+			j++
+			continue
+		}
+		if behalf && elided[c18Elided{f.name, "*"}] {
+			continue
+		}
+		if !elided[c18Elided{f.name, f.loc}] {
+			w.Violation(key("stack-trace-frame-dropped:"+merr.Class),
+				fmt.Sprintf("with elimination on the frame %s@%s is missing although no tail elision collapsed it", f.name, f.loc), detail())
+			return nil, nil, nil, false
+		}
+	}
+	if j != len(ron) {
+		w.Violation(key("stack-trace-extra-frames-with-elimination"), "the elimination-on trace is not a subsequence of the elimination-off trace", detail())
+		return nil, nil, nil, false
+	}
+	return real, ron, model, true
 }
 
 func c18ModelChain(e *refint.Err) string {
